@@ -1491,8 +1491,10 @@ impl SourceLocation for RedirectList {
 
 impl Display for RedirectList {
     fn fmt(&self, f: &mut std::fmt::Formatter<'_>) -> std::fmt::Result {
+        // N.B. Each redirect must be separated from what precedes it (the command or a
+        // previous redirect); otherwise the text re-parses as something else.
         for item in &self.0 {
-            write!(f, "{item}")?;
+            write!(f, " {item}")?;
         }
         Ok(())
     }
